@@ -1,8 +1,10 @@
 package main
 
 import (
+	"go/constant"
 	"go/token"
 	"go/types"
+	"regexp"
 
 	"golang.org/x/tools/go/ssa"
 )
@@ -112,7 +114,60 @@ func byteDomains(fn *ssa.Function, isSubject func(ssa.Value) bool) (map[*ssa.Bas
 		for i := range outs {
 			outs[i] = d
 		}
-		// a definition of the subject's slice in this block resets what is known
+		// a condition in value form (`a || b` as a switch case): a phi of the block whose edges
+		// carry constants or comparisons of the subject; each edge contributes its own domain
+		if iff, ok := b.Instrs[len(b.Instrs)-1].(*ssa.If); ok && len(b.Succs) == 2 {
+			if ph, isPhi := iff.Cond.(*ssa.Phi); isPhi && ph.Block() == b {
+				var t, f byteDom
+				haveT, haveF := false, false
+				add := func(dst *byteDom, have *bool, d byteDom) {
+					if !*have {
+						*dst, *have = d, true
+					} else {
+						*dst = domUnion(*dst, d)
+					}
+				}
+				for i, e := range ph.Edges {
+					ed, ok := edge[[2]*ssa.BasicBlock{b.Preds[i], b}]
+					if !ok {
+						continue
+					}
+					if cn, ok := e.(*ssa.Const); ok && cn.Value != nil {
+						if cn.Value.String() == "true" {
+							add(&t, &haveT, ed)
+						} else {
+							add(&f, &haveF, ed)
+						}
+						continue
+					}
+					if bo, ok := e.(*ssa.BinOp); ok && (bo.Op == token.EQL || bo.Op == token.NEQ) {
+						var k int64
+						var isC, subj bool
+						if isSubject(bo.X) {
+							k, isC = constInt(bo.Y)
+							subj = true
+						} else if isSubject(bo.Y) {
+							k, isC = constInt(bo.X)
+							subj = true
+						}
+						if subj && isC && k >= 0 && k < 256 {
+							eq := bo.Op == token.EQL
+							add(&t, &haveT, domRefine(ed, byte(k), eq))
+							add(&f, &haveF, domRefine(ed, byte(k), !eq))
+							continue
+						}
+					}
+					add(&t, &haveT, ed)
+					add(&f, &haveF, ed)
+				}
+				if haveT {
+					outs[0] = t
+				}
+				if haveF {
+					outs[1] = f
+				}
+			}
+		}
 		if iff, ok := b.Instrs[len(b.Instrs)-1].(*ssa.If); ok && len(b.Succs) == 2 {
 			cond, neg := iff.Cond, false
 			for {
@@ -302,6 +357,22 @@ func readerEscapes(p *Program, fn *ssa.Function) (table map[byte]byte, unicode m
 									}
 								}
 							}
+							// a package-level array indexed by the selector (zero = no entry)
+							if ld, ok := v.(*ssa.UnOp); ok && ld.Op == token.MUL {
+								if ia, ok := ld.X.(*ssa.IndexAddr); ok {
+									idx := ia.Index
+									if cv, ok := idx.(*ssa.Convert); ok {
+										idx = cv.X
+									}
+									if g, ok := ia.X.(*ssa.Global); ok && isSubject(idx) {
+										for sel, ch := range arrayEntries(g) {
+											if d.has(sel) && ch != 0 {
+												put(sel, ch)
+											}
+										}
+									}
+								}
+							}
 						}
 					}
 				}
@@ -314,4 +385,306 @@ func readerEscapes(p *Program, fn *ssa.Function) (table map[byte]byte, unicode m
 func isByte(t types.Type) bool {
 	bt, ok := t.Underlying().(*types.Basic)
 	return ok && bt.Kind() == types.Uint8
+}
+
+// writerEscapeInfo: what hclwrite.escapeQuotedStringLit does, read from its SSA.
+type writerEscapeInfo struct {
+	table       map[byte][2]byte // character → the two bytes written for it (a backslash escape)
+	introducers map[byte]bool    // characters of the arm that tests the next byte against '{'
+	doubles     bool             // that arm writes the character once unconditionally and once more on the '{' edge
+	nonPrint    bool             // unicode.IsPrint is consulted
+	widths      map[string]int   // "u"/"U" → number of hex digits of the format
+	subjectOK   bool
+}
+
+func moduleCallees(fn *ssa.Function, depth int, seen map[*ssa.Function]bool) []*ssa.Function {
+	if seen[fn] || depth < 0 {
+		return nil
+	}
+	seen[fn] = true
+	out := []*ssa.Function{fn}
+	for _, b := range fn.Blocks {
+		for _, ins := range b.Instrs {
+			if call, ok := ins.(*ssa.Call); ok {
+				if cal := call.Call.StaticCallee(); cal != nil && inModule(cal) && len(cal.Blocks) > 0 {
+					out = append(out, moduleCallees(cal, depth-1, seen)...)
+				}
+			}
+		}
+	}
+	for _, af := range fn.AnonFuncs {
+		out = append(out, moduleCallees(af, depth-1, seen)...)
+	}
+	return out
+}
+
+// helperByteTable: for a helper h(c) that returns (k, true) for some characters: c → k, read from
+// the domains of its parameter at the returns whose results are constants.
+func helperByteTable(h *ssa.Function) map[byte]byte {
+	out := map[byte]byte{}
+	if len(h.Params) == 0 {
+		return out
+	}
+	par := h.Params[len(h.Params)-1]
+	isSubj := func(v ssa.Value) bool {
+		for i := 0; i < 4; i++ {
+			if v == ssa.Value(par) || isSpillOf(v, par) {
+				return true
+			}
+			cv, ok := v.(*ssa.Convert)
+			if !ok {
+				return false
+			}
+			v = cv.X
+		}
+		return false
+	}
+	in, _ := byteDomains(h, isSubj)
+	for _, b := range h.Blocks {
+		ret, ok := b.Instrs[len(b.Instrs)-1].(*ssa.Return)
+		if !ok || len(ret.Results) < 1 {
+			continue
+		}
+		k, isC := constInt(ret.Results[0])
+		if !isC || k <= 0 || k > 255 {
+			continue
+		}
+		if len(ret.Results) > 1 {
+			if c, ok := ret.Results[1].(*ssa.Const); ok && c.Value != nil && c.Value.String() != "true" {
+				continue
+			}
+		}
+		if d := in[b]; !d.neg {
+			for _, ch := range d.values() {
+				out[ch] = byte(k)
+			}
+		}
+	}
+	return out
+}
+
+func writerEscapes(fn *ssa.Function) writerEscapeInfo {
+	info := writerEscapeInfo{table: map[byte][2]byte{}, introducers: map[byte]bool{}, widths: map[string]int{}}
+	// the subject: the rune of a range over the string parameter
+	var subj ssa.Value
+	for _, b := range fn.Blocks {
+		for _, ins := range b.Instrs {
+			if ex, ok := ins.(*ssa.Extract); ok && ex.Index == 2 {
+				if nx, ok := ex.Tuple.(*ssa.Next); ok && nx.IsString {
+					subj = ex
+				}
+			}
+		}
+	}
+	if subj == nil {
+		return info
+	}
+	info.subjectOK = true
+	isSubj := func(v ssa.Value) bool {
+		for i := 0; i < 4; i++ {
+			if v == subj {
+				return true
+			}
+			cv, ok := v.(*ssa.Convert)
+			if !ok {
+				return false
+			}
+			v = cv.X
+		}
+		return false
+	}
+	in, _ := byteDomains(fn, isSubj)
+	// two-byte appends: '\\' followed by a constant or by the result of a table helper
+	for _, b := range fn.Blocks {
+		for _, ins := range b.Instrs {
+			call, ok := ins.(*ssa.Call)
+			if !ok {
+				continue
+			}
+			bi, ok := call.Call.Value.(*ssa.Builtin)
+			if !ok || bi.Name() != "append" || len(call.Call.Args) != 2 {
+				continue
+			}
+			sl, ok := call.Call.Args[1].(*ssa.Slice)
+			if !ok {
+				continue
+			}
+			al, ok := sl.X.(*ssa.Alloc)
+			if !ok {
+				continue
+			}
+			at, ok := al.Type().(*types.Pointer).Elem().Underlying().(*types.Array)
+			if !ok || at.Len() != 2 {
+				continue
+			}
+			var elems [2]ssa.Value
+			for _, r := range *al.Referrers() {
+				if ia, ok := r.(*ssa.IndexAddr); ok {
+					if k, isC := constInt(ia.Index); isC && k >= 0 && k < 2 {
+						for _, r2 := range *ia.Referrers() {
+							if st, ok := r2.(*ssa.Store); ok {
+								elems[k] = st.Val
+							}
+						}
+					}
+				}
+			}
+			if k0, ok := constInt(elems[0]); !ok || k0 != '\\' {
+				continue
+			}
+			d := in[b]
+			if k1, ok := constInt(elems[1]); ok {
+				if !d.neg {
+					for _, ch := range d.values() {
+						info.table[ch] = [2]byte{'\\', byte(k1)}
+					}
+				}
+				continue
+			}
+			v := elems[1]
+			if ex, ok := v.(*ssa.Extract); ok && ex.Index == 0 {
+				v = ex.Tuple
+			}
+			if hc, ok := v.(*ssa.Call); ok {
+				if h := hc.Call.StaticCallee(); h != nil && inModule(h) && len(h.Blocks) > 0 {
+					for ch, k := range helperByteTable(h) {
+						if d.has(ch) {
+							info.table[ch] = [2]byte{'\\', k}
+						}
+					}
+				}
+			}
+		}
+	}
+	// the introducer arm: a comparison with '{' in a block where the subject is one of a few characters
+	appendsSubject := func(b *ssa.BasicBlock) bool {
+		for _, ins := range b.Instrs {
+			if call, ok := ins.(*ssa.Call); ok {
+				for _, a := range call.Call.Args {
+					if isSubj(a) {
+						return true
+					}
+				}
+			}
+		}
+		return false
+	}
+	for _, b := range fn.Blocks {
+		iff, ok := b.Instrs[len(b.Instrs)-1].(*ssa.If)
+		if !ok {
+			continue
+		}
+		bo, ok := iff.Cond.(*ssa.BinOp)
+		if !ok || bo.Op != token.EQL {
+			continue
+		}
+		k, isC := constInt(bo.Y)
+		if !isC || k != '{' {
+			continue
+		}
+		d := in[b]
+		if d.neg || len(d.values()) == 0 {
+			continue
+		}
+		for _, ch := range d.values() {
+			info.introducers[ch] = true
+		}
+		// once before the test (in a dominating block of the arm with the same domain), once on the true edge
+		before := false
+		for x := b; x != nil; x = x.Idom() {
+			if dx := in[x]; !dx.neg && domEqual(dx, d) && appendsSubject(x) {
+				before = true
+			}
+		}
+		if before && appendsSubject(b.Succs[0]) && !appendsSubject(b.Succs[1]) {
+			info.doubles = true
+		}
+	}
+	for _, f := range moduleCallees(fn, 2, map[*ssa.Function]bool{}) {
+		for _, b := range f.Blocks {
+			for _, ins := range b.Instrs {
+				if call, ok := ins.(*ssa.Call); ok {
+					if cal := call.Call.StaticCallee(); cal != nil && cal.Pkg != nil && cal.Pkg.Pkg.Path() == "unicode" && cal.Name() == "IsPrint" {
+						info.nonPrint = true
+					}
+					for _, a := range call.Call.Args {
+						if cn, ok := a.(*ssa.Const); ok && cn.Value != nil && cn.Value.Kind() == constant.String {
+							if m := hexFormatRe.FindAllStringSubmatch(constant.StringVal(cn.Value), -1); m != nil {
+								for _, g := range m {
+									info.widths[g[1]] = int(g[2][0] - '0')
+								}
+							}
+						}
+					}
+				}
+			}
+		}
+	}
+	return info
+}
+
+var hexFormatRe = regexp.MustCompile(`\\(u|U)%0(\d)x`)
+
+// readerUndoubles: ParseStringLiteralToken compares the second byte of a slice with its first and
+// the third with '{' (the un-doubling of $${ and %%{).
+func readerUndoubles1(fn *ssa.Function) bool {
+	idxLoad := func(v ssa.Value, want int64) bool {
+		u, ok := v.(*ssa.UnOp)
+		if !ok || u.Op != token.MUL {
+			return false
+		}
+		ia, ok := u.X.(*ssa.IndexAddr)
+		if !ok {
+			return false
+		}
+		k, isC := constInt(ia.Index)
+		return isC && k == want
+	}
+	same, brace := false, false
+	for _, b := range fn.Blocks {
+		for _, ins := range b.Instrs {
+			bo, ok := ins.(*ssa.BinOp)
+			if !ok || bo.Op != token.EQL {
+				continue
+			}
+			if (idxLoad(bo.X, 1) && idxLoad(bo.Y, 0)) || (idxLoad(bo.X, 0) && idxLoad(bo.Y, 1)) {
+				same = true
+			}
+			if k, isC := constInt(bo.Y); isC && k == '{' && idxLoad(bo.X, 2) {
+				brace = true
+			}
+		}
+	}
+	return same && brace
+}
+
+
+// arrayEntries: the constant elements a package-level byte array is initialised with.
+func arrayEntries(g *ssa.Global) map[byte]byte {
+	out := map[byte]byte{}
+	if g.Pkg == nil {
+		return out
+	}
+	init := g.Pkg.Func("init")
+	if init == nil {
+		return out
+	}
+	for _, b := range init.Blocks {
+		for _, ins := range b.Instrs {
+			st, ok := ins.(*ssa.Store)
+			if !ok {
+				continue
+			}
+			ia, ok := st.Addr.(*ssa.IndexAddr)
+			if !ok || ia.X != ssa.Value(g) {
+				continue
+			}
+			k, ok1 := constInt(ia.Index)
+			v, ok2 := constInt(st.Val)
+			if ok1 && ok2 && k >= 0 && k < 256 && v >= 0 && v < 256 {
+				out[byte(k)] = byte(v)
+			}
+		}
+	}
+	return out
 }
